@@ -98,6 +98,10 @@ Definition int_of (s : string) : option Z := py_int_lit s.
 (* reference operand of branches / jumps: literal offset, else %offset *)
 Definition ref_imm (reference : string) (l : line) : fres expr :=
   if is_int reference then parse_immediate [reference] l else parse_immediate ["%offset"; reference] l.
+(* the operand tokens of c.beqz / c.bnez / c.j / c.jal: a single token that is no integer literal is a reference (%offset), as for
+   the 32-bit branches and jal; integer literals and longer expressions are left as they are *)
+Definition cref_imm (imm : list string) : list string :=
+  match imm with [t] => if is_int t then imm else ["%offset"; t] | _ => imm end.
 
 Definition pseudo (l : line) (name : string) (args : list string) : fres item :=
   if String.eqb name "li" then
@@ -266,11 +270,13 @@ Definition parse_item (l : line) (tokens : list string) : fres item :=
         end
       else if in_tab head CB_TYPE_INSTRUCTIONS_final then
         match tokens with
-        | _ :: a :: imm => e <! parse_immediate imm l ;; instr "CBTypeInstruction" head [("rs1", R a); imm_field e] true
+        | _ :: a :: imm =>
+            let imm := if String.eqb head "c.beqz" || String.eqb head "c.bnez" then cref_imm imm else imm in
+            e <! parse_immediate imm l ;; instr "CBTypeInstruction" head [("rs1", R a); imm_field e] true
         | _ => raise_raw ValueError
         end
       else if in_tab head CJ_TYPE_INSTRUCTIONS_final then
-        e <! parse_immediate args l ;; instr "CJTypeInstruction" head [imm_field e] true
+        e <! parse_immediate (cref_imm args) l ;; instr "CJTypeInstruction" head [imm_field e] true
       else if mem_str head PSEUDO_INSTRUCTIONS_final then pseudo l head args
       else raise_asm l
   end.
